@@ -215,6 +215,11 @@ type RunResult struct {
 	ReturnedAt time.Duration
 }
 
+// CancelCurrentRun cancels the context of the run RunOnce is executing (for
+// scenario code that plays the caller interrupting at a precise point, e.g.
+// from inside setup). No-op outside RunOnce.
+var CancelCurrentRun = func() {}
+
 // RunOnce builds the run described by rs and executes Do once on the default
 // schedule in virtual time. cancelAt >= 0: the caller cancels then. After Do
 // returns the clock runs on for observe.
@@ -229,6 +234,8 @@ func RunOnce(rs *RunSpec, cancelAt, observe time.Duration, horizon time.Duration
 		res.Reg = b.Reg
 		ctx, cancel := vctx.WithCancel(vctx.Background())
 		defer cancel()
+		CancelCurrentRun = cancel
+		defer func() { CancelCurrentRun = func() {} }()
 		if cancelAt >= 0 {
 			vrt.GoNamed("caller-cancel", func() {
 				if cancelAt > 0 {
